@@ -220,6 +220,7 @@ var specs = map[string]*CheckSpec{
 		ID: "C17", Patterns: []string{bpPkg, lsPkg},
 		Runs: []HarnessRun{bpRun("ZZ_C17Col", "ZZ_C17ColN", "ZZ_C17ColDesc", "column pagination:", []int{5, 12}), bpRun("ZZ_C17Off", "ZZ_C17OffN", "ZZ_C17OffDesc", "offset pagination:", []int{3}),
 			bpRun("ZZ_C17Tok", "ZZ_C17TokN", "ZZ_C17TokDesc", "cursor token:", []int{1}),
+			bpRun("ZZ_C17OffWalk", "ZZ_C17OffWalkN", "ZZ_C17OffWalkDesc", "", []int{0}),
 			{Pkg: lsPkg, Dir: "internal/storage/ledgerstore", Mod: "ledger", Fn: "ZZ_C17Cursor", Shapes: countShapes(lsPkg, "ZZ_C17CursorN"), Cfg: cmdCfg, Desc: harnessDesc(lsPkg, "ZZ_C17CursorDesc", "cursor round trip:"), CanaryShapes: []int{0}},
 			{Pkg: lsPkg, Dir: "internal/storage/ledgerstore", Mod: "ledger", Fn: "ZZ_C17Filter", Shapes: func(s *Session, tier string) []int {
 				if tier == "thorough" {
@@ -228,7 +229,7 @@ var specs = map[string]*CheckSpec{
 				return []int{0, 1, 2}
 			}, Cfg: cmdCfg, Desc: harnessDesc(lsPkg, "ZZ_C17FilterDesc", "cursor filter:"), CanaryShapes: []int{1}}},
 		Bounds: func(tier string) map[string]any {
-			return map[string]any{"column_pagination": "collections of 0..4 rows with arbitrary increasing ids, every page size 1..n+1, both orders: full forward traversal and previous from every page", "offset_pagination": "collections of 0..4 rows; offset (< 2^31: bun keeps OFFSET as int32, larger offsets need a collection of 2^31 rows) and page size (1..MaxPageSize) are arbitrary 64-bit values: one-step law", "cursor_token": "a filter value of 1..4 arbitrary printable bytes inside the query: the token written by EncodeCursor is read back by UnmarshalCursor (base64 alphabet and padding modelled bit-exactly for byte-determined texts)", "cursor_filter": "every filter tree of depth <= 2 over {$match,$lt,$and,$or,$not}, sets of up to 3 items at depth 1 and up to 2 (thorough 3) at depth 2: the builder decoded from the cursor renders the same clause", "cursor": "every cursor handed out is decoded again through UnmarshalCursor (base64 + JSON model); cursors of the transactions / accounts / logs listings with and without a filter round-trip and build the same WHERE clause", "outside": "bun's SQL generation and PostgreSQL's ordering (the table is an abstract ordered relation; natively a fake database/sql driver)"}
+			return map[string]any{"column_pagination": "collections of 0..4 rows with arbitrary increasing ids, every page size 1..n+1, both orders: full forward traversal and previous from every page", "offset_pagination": "collections of 0..4 rows; offset (< 2^31: bun keeps OFFSET as int32, larger offsets need a collection of 2^31 rows) and page size (1..1000, the v1 maximum) are arbitrary 64-bit values: one-step law; full walks over 105 and 230 rows with page size arbitrary in 90..1000", "cursor_token": "a filter value of 1..4 arbitrary printable bytes inside the query: the token written by EncodeCursor is read back by UnmarshalCursor (base64 alphabet and padding modelled bit-exactly for byte-determined texts)", "cursor_filter": "every filter tree of depth <= 2 over {$match,$lt,$and,$or,$not}, sets of up to 3 items at depth 1 and up to 2 (thorough 3) at depth 2: the builder decoded from the cursor renders the same clause", "cursor": "every cursor handed out is decoded again through UnmarshalCursor (base64 + JSON model); cursors of the transactions / accounts / logs listings with and without a filter round-trip and build the same WHERE clause", "outside": "bun's SQL generation and PostgreSQL's ordering (the table is an abstract ordered relation; natively a fake database/sql driver)"}
 		},
 		Assumptions: []string{"*bun.SelectQuery is an abstract ordered table: Where/OrderExpr/Offset/Limit/Scan have their SQL meaning; negative LIMIT/OFFSET is an error", "row ids are distinct (strictly increasing)", "reflect is answered from go/types", "encoding/json and base64 modelled over ropes"},
 		Encoded:     []string{"bunpaginate.UsingColumn", "bunpaginate.UsingOffset", "bunpaginate.(*ColumnPaginatedQuery).EncodeAsCursor", "bunpaginate.(*OffsetPaginatedQuery).EncodeAsCursor", "bunpaginate.EncodeCursor", "bunpaginate.UnmarshalCursor", "bunpaginate.Order.Reverse", "bunpaginate.(*BigInt).MarshalJSON/UnmarshalJSON", "ledgerstore.(*PaginatedQueryOptions).UnmarshalJSON", "query.set/keyValue/not.MarshalJSON", "query.ParseJSON"},
